@@ -195,6 +195,17 @@ func (e *Engine) cropCompletions(comps string, maxRows int) (cropped string, use
 	return
 }
 
+// croppedHint returns the line telling how many completion rows are not shown, cut to
+// the terminal width so that it never takes more than the single row counted for it.
+func croppedHint(remain int) string {
+	hint := fmt.Sprintf(" %d more completion rows... (scroll down to show)", remain)
+	if width := term.GetWidth(); width > 1 && len(hint) > width-1 {
+		hint = hint[:width-1]
+	}
+
+	return term.NewlineReturn + color.Dim + color.FgYellow + hint + color.Reset
+}
+
 func (e *Engine) cutCompletionsBelow(scanner *bufio.Scanner, maxRows int) (string, int) {
 	var count int
 	var cropped string
@@ -219,7 +230,7 @@ func (e *Engine) cutCompletionsBelow(scanner *bufio.Scanner, maxRows int) (strin
 		return cropped, count - 1
 	}
 
-	cropped += fmt.Sprintf(term.NewlineReturn+color.Dim+color.FgYellow+" %d more completion rows... (scroll down to show)"+color.Reset, remain)
+	cropped += croppedHint(remain)
 
 	return cropped, count
 }
@@ -258,7 +269,7 @@ func (e *Engine) cutCompletionsAboveBelow(scanner *bufio.Scanner, maxRows, absPo
 		return cropped, count - 1
 	}
 
-	cropped += fmt.Sprintf(term.NewlineReturn+color.Dim+color.FgYellow+" %d more completion rows... (scroll down to show)"+color.Reset, remain)
+	cropped += croppedHint(remain)
 
 	return cropped, count
 }
